@@ -1150,6 +1150,8 @@ func (f *family) each(emit func(kase)) {
 }
 
 func run(t *vlib.T) {
+	// rebinding dimension first: small, and independent of the kase families
+	runRebind(t)
 	seen := map[string]struct{}{}
 	for _, f := range families(t.Thorough()) {
 		f := f
@@ -1185,7 +1187,7 @@ func main() {
 	vlib.Main(vlib.Spec{
 		ID:    "C12",
 		Level: "exploration",
-		Rule:  "every macro signature with 0–3 parameters × every subset with defaults × 5 kinds of constant default × 4 declaration spacings × argument lists of 0…n+1 arguments × 6 kinds of argument × 6 bodies (print, set inside, call a sibling, call a sibling through _self, if/for over parameters, include a name relative to the defining template) × 11 call sites (top, for, if, block, block of an extending template, included template, inside another macro, through a macro w next to f calling f / _self.f, import statement inside a for body, importing template included from a for body) × padding of the defining or the calling template above 4096 bytes, as a union of full products (families, see NOTES.md). One case takes the same macro and call once per way of reaching it (direct, _self, import, from, from-as, multi-name from) and compares every render with the binding model. Histories on one engine: history 'each' renders every way's calling template three times in a row on its own engine; history 'seq' (own families) puts the calling templates of all ways on ONE engine next to one library and renders them one after the other, in every rotation of their order and in reverse, two passes each. Use of the call's VALUE (families 'held', 'held-seq', calls with at least one argument): besides being printed once, the value is held and used several times — {% set r = CALL %}{{ r }}|{{ r }}; {% set r = CALL %}{% for i in [1, 2] %}{{ r }}{% endfor %}; passed to a macro tw that prints its parameter twice, tw reached through {% import 'olib' as o %} (o.tw(CALL)) or defined in the calling template (tw(CALL), _self.tw(CALL)); two calls of the macro with different arguments held before either is printed ({% set r = CALL %}{% set q = CALL2 %}{{ r }}{{ q }}{{ r }}) — for every way of reaching the macro, on every site; model: a held value is the text the call renders, every time it is used. Version dimension (families 'replace…', 'partial…'; keys 'repl:<how>:<change>|…', 'part:<wayA>><wayB>:<change>|…'): the macro has a second version — other body text / the complementary subset of defaults of another kind / one parameter more / one fewer / all three at once. replace: the calling templates of the ways import, from, from-as, multi-name from stand on one engine next to the library; all are rendered, the library is replaced by the other version, all are rendered, it is replaced back, all are rendered (starting from either version, callers in order and in reverse order); replaced by RegisterString again / by changing the source in a loader with caching disabled / by changing source and modification time in a timestamp-aware loader with auto-reload on / the same with the calling templates registered as strings; every render must equal the model of the version current at that render. partial: includers pageA and pageB supply version 1 and version 2 of the macro (defined in the includer, or reached there by from / from-as / multi-name from / import from its own library; every pair of ways for which the call reads the same), call it and then include the shared partial row, which makes the same call; pageA, pageB, pageA, pageB and pageB, pageA, pageB, pageA on one engine each: both calls must render the version of the page being rendered. Wide signatures (families 'wide…'): 8, 9, 10 and 12 parameters (thorough: 4 … 12) with patterns of defaults (none, all, every other one in both phases, the last, the last two, all but the first, all from the ninth on; thorough: also every single default / every single parameter without one), arguments for all parameters but the last two, for all, and one more than there are parameters (thorough: 0 … n+2), bodies that print every parameter, on every site, through every way of reaching the macro, printed and held. Collision dimension (families 'collide…', keys 'col:<kind>:<names>|…', ways import/from/from-as/multi-name from): the importing template binds a name that the reached library macro calls (the sibling g called by bodies sib/selfsib; for sites libw/libwself also f, which w calls, or both) to something else — a macro of its own defined before or after the import, or another macro imported under that name as an alias (from the same library or from another one, in its own from-statement before or after the import, or inside the from-statement that imports the macro, before or after it) — and calls that name itself after the call; the library macro must render what it renders when called directly in its defining template (the model), the importing template's own call its own macro. Site wrap (these families): the import stands at top level of the calling template, the call inside a macro v of that template. Escape dimension (families 'escaped…', key suffix '|e:<kind>'): the TEXT of the macro's body contains escaped delimiters — a fragment written with a backslash before each opener stands directly after the body's opening '[' (before the first real print tag) and directly before its closing ']' (after the last real tag); kinds of fragment: every parameter as an escaped print tag (\\{{ p0 }}:\\{{ p1 }}; without parameters p0 is an outer variable), filter expressions on the last parameter (\\{{ p1|upper }}\\{{ p1|default('x') }}), an outer variable and an unknown name (\\{{ q0 }}\\{{ zz }}), escaped block tags (\\{% if p0 %}\\{{ p1 }}\\{% endif %}\\{% set p0 = 'e' %}), an escaped comment (\\{# p0 #}), tight and dashed spellings (\\{{p0}}\\{{- p1 -}}); the fragment must render inside the macro what the same fragment renders at top level of a template of its own with the same names bound (twin, tokenized like the macro's defining template), spliced into the binding model's output — on every way of reaching the macro, every site. Non-trivial: the signature or the call has at least one parameter/argument, i.e. a binding decision is made, or the body's text carries an escaped fragment (version families: and the two versions render differently; collision cases: and the reached macro calls a colliding name)",
+		Rule:  "every macro signature with 0–3 parameters × every subset with defaults × 5 kinds of constant default × 4 declaration spacings × argument lists of 0…n+1 arguments × 6 kinds of argument × 6 bodies (print, set inside, call a sibling, call a sibling through _self, if/for over parameters, include a name relative to the defining template) × 11 call sites (top, for, if, block, block of an extending template, included template, inside another macro, through a macro w next to f calling f / _self.f, import statement inside a for body, importing template included from a for body) × padding of the defining or the calling template above 4096 bytes, as a union of full products (families, see NOTES.md). One case takes the same macro and call once per way of reaching it (direct, _self, import, from, from-as, multi-name from) and compares every render with the binding model. Histories on one engine: history 'each' renders every way's calling template three times in a row on its own engine; history 'seq' (own families) puts the calling templates of all ways on ONE engine next to one library and renders them one after the other, in every rotation of their order and in reverse, two passes each. Use of the call's VALUE (families 'held', 'held-seq', calls with at least one argument): besides being printed once, the value is held and used several times — {% set r = CALL %}{{ r }}|{{ r }}; {% set r = CALL %}{% for i in [1, 2] %}{{ r }}{% endfor %}; passed to a macro tw that prints its parameter twice, tw reached through {% import 'olib' as o %} (o.tw(CALL)) or defined in the calling template (tw(CALL), _self.tw(CALL)); two calls of the macro with different arguments held before either is printed ({% set r = CALL %}{% set q = CALL2 %}{{ r }}{{ q }}{{ r }}) — for every way of reaching the macro, on every site; model: a held value is the text the call renders, every time it is used. Version dimension (families 'replace…', 'partial…'; keys 'repl:<how>:<change>|…', 'part:<wayA>><wayB>:<change>|…'): the macro has a second version — other body text / the complementary subset of defaults of another kind / one parameter more / one fewer / all three at once. replace: the calling templates of the ways import, from, from-as, multi-name from stand on one engine next to the library; all are rendered, the library is replaced by the other version, all are rendered, it is replaced back, all are rendered (starting from either version, callers in order and in reverse order); replaced by RegisterString again / by changing the source in a loader with caching disabled / by changing source and modification time in a timestamp-aware loader with auto-reload on / the same with the calling templates registered as strings; every render must equal the model of the version current at that render. partial: includers pageA and pageB supply version 1 and version 2 of the macro (defined in the includer, or reached there by from / from-as / multi-name from / import from its own library; every pair of ways for which the call reads the same), call it and then include the shared partial row, which makes the same call; pageA, pageB, pageA, pageB and pageB, pageA, pageB, pageA on one engine each: both calls must render the version of the page being rendered. Wide signatures (families 'wide…'): 8, 9, 10 and 12 parameters (thorough: 4 … 12) with patterns of defaults (none, all, every other one in both phases, the last, the last two, all but the first, all from the ninth on; thorough: also every single default / every single parameter without one), arguments for all parameters but the last two, for all, and one more than there are parameters (thorough: 0 … n+2), bodies that print every parameter, on every site, through every way of reaching the macro, printed and held. Collision dimension (families 'collide…', keys 'col:<kind>:<names>|…', ways import/from/from-as/multi-name from): the importing template binds a name that the reached library macro calls (the sibling g called by bodies sib/selfsib; for sites libw/libwself also f, which w calls, or both) to something else — a macro of its own defined before or after the import, or another macro imported under that name as an alias (from the same library or from another one, in its own from-statement before or after the import, or inside the from-statement that imports the macro, before or after it) — and calls that name itself after the call; the library macro must render what it renders when called directly in its defining template (the model), the importing template's own call its own macro. Site wrap (these families): the import stands at top level of the calling template, the call inside a macro v of that template. Escape dimension (families 'escaped…', key suffix '|e:<kind>'): the TEXT of the macro's body contains escaped delimiters — a fragment written with a backslash before each opener stands directly after the body's opening '[' (before the first real print tag) and directly before its closing ']' (after the last real tag); kinds of fragment: every parameter as an escaped print tag (\\{{ p0 }}:\\{{ p1 }}; without parameters p0 is an outer variable), filter expressions on the last parameter (\\{{ p1|upper }}\\{{ p1|default('x') }}), an outer variable and an unknown name (\\{{ q0 }}\\{{ zz }}), escaped block tags (\\{% if p0 %}\\{{ p1 }}\\{% endif %}\\{% set p0 = 'e' %}), an escaped comment (\\{# p0 #}), tight and dashed spellings (\\{{p0}}\\{{- p1 -}}); the fragment must render inside the macro what the same fragment renders at top level of a template of its own with the same names bound (twin, tokenized like the macro's defining template), spliced into the binding model's output — on every way of reaching the macro, every site. Rebinding dimension (keys 'rebind:<name>|<site>|<binding>>…'): within one render the same macro name f or alias g (or module variable m) is bound 2 or 3 times (thorough: 4) by tags standing one after the other — a macro of the calling template (first binding only), from 'S' import f, from 'S' import h as f / f as g / h as g, multi-name from-statements, import 'S' as m — from two libraries whose macros f and h differ in body and in defaults, every sequence, at top level / inside if / inside a macro body / first binding at top level and the later ones inside if; after every binding the name is called with 0, 1, 2 and 3 arguments and must render what the macro bound last renders when called directly in its defining template (twin), two renders on one engine. Non-trivial: the signature or the call has at least one parameter/argument, i.e. a binding decision is made, or the body's text carries an escaped fragment (version families: and the two versions render differently; collision cases: and the reached macro calls a colliding name)",
 		Assumptions: []string{
 			"defaults and arguments are constant expressions or caller-scope variables; bodies read only their parameters; the result of a macro call is printed, assigned with set and printed, or passed as an argument to a macro that prints it (never part of a larger expression, never filtered); calls stand after the definitions/imports they use",
 			"macros are defined at top level of a template that does not extend another one; 0–3 parameters with every subset of defaults and 4–12 parameters with patterns of defaults; named arguments and other body shapes are outside the bound; a colliding name is never bound twice on the importing side (own macro and import of the same name)",
